@@ -298,11 +298,73 @@ def entry_case(args) -> Dict[str, Any]:
     return {"problems": probs, "skipped": False}
 
 
+def reconnect_case(args) -> Dict[str, Any]:
+    """dynamic-id clients lose their connection (no disconnect()) and the SAME objects connect again: each must again ask
+    for id 0 on the wire, be given a dynamic id no live module holds and learn it from the acknowledgement"""
+    tc, nclients, how = args
+    from .. import clx
+    import pyrtma.client as C
+
+    mmx.fresh_gc()
+    w = clx.ClientWorld(timecode=tc)
+    probs = []
+    try:
+        cs = []
+        for i in range(nclients):
+            c = w.new_client(module_id=0, timecode=tc, name=f"d{i}")
+            c.connect(mmx.SERVER)
+            cs.append(c)
+        w.settle()
+        first = [c.module_id for c in cs]
+        # the manager side of every connection goes away (restart / network loss); the clients notice on their next read
+        for c in cs:
+            # the network drops the connection: both ends see a reset / an end of stream (neither socket object is closed by us)
+            cs_, ms = c._sock, c._sock.peer_sock
+            for end in (cs_, ms):
+                end.peer = "rst" if how == "rst" else "fin"
+                end.err = how == "rst"
+        for c in cs:
+            try:
+                c.read_message(timeout=0)
+            except C.ConnectionLost:
+                pass
+            except Exception as e:
+                probs.append({"prop": "C06", "kind": "loss-not-reported", "exc": type(e).__name__})
+        # the manager forgets them as well (it reads EOF from the closed sockets)
+        w.settle()
+        held = set()
+        for i, c in enumerate(cs):
+            try:
+                c.connect(mmx.SERVER)
+            except Exception as e:
+                probs.append({"prop": "C06", "kind": "reconnect-failed", "client": i, "exc": f"{type(e).__name__}: {str(e)[:100]}"})
+                continue
+            w.settle()
+            fr = [f for f in w.sent_frames(c) if f.msg_type == P.MT_CONNECT_V2]
+            if not fr or P.P_CONNECT_V2.unpack(fr[0].payload)[3] != 0:
+                probs.append({"prop": "C06", "kind": "reconnect-asks-for-stale-id", "client": i, "requested": P.P_CONNECT_V2.unpack(fr[0].payload)[3] if fr else None})
+            if not (DYN0 <= c.module_id < DYNMAX) or c.module_id in held:
+                probs.append({"prop": "C06", "kind": "bad-dynamic-id", "client": i, "id": c.module_id, "held": sorted(held)})
+            held.add(c.module_id)
+        try:
+            live = sorted(m.mod_id for m in w.mgr.modules.values() if m.connected and m is not w.mgr.mm_module)
+            if live != sorted(held) and not probs:
+                probs.append({"prop": "C06", "kind": "manager-table-differs", "manager": live, "clients": sorted(held)})
+        except Exception:
+            pass
+    finally:
+        w.stop()
+    return {"problems": probs, "skipped": False}
+
+
 def run_chunk(items):
     out = []
     for kind, args in items:
         if kind == "wrap":
             out.append(wrap_case(args))
+            continue
+        if kind == "reconnect":
+            out.append(reconnect_case(args))
             continue
         try:
             out.append(entry_case(args))
@@ -346,6 +408,10 @@ def run(tier: str) -> int:
         # longer runs of ids in use when the cursor comes round again
         for keep in ((0, 1, 2, 3, 4), (0, 2, 3, 4, 5, 6, 7), tuple(range(12))):
             items.append(("wrap", (tc, keep, 105 if tier == "quick" else 230)))
+    for tc in ((False,) if tier == "quick" else (False, True)):
+        for ncl in (1, 3):
+            for how in ("rst", "fin"):
+                items.append(("reconnect", (tc, ncl, how)))
     n_entry = 0
     for entry in ("connect", "connect-positional", "client_context"):
         for mid in (0, 33):
@@ -384,7 +450,9 @@ def run(tier: str) -> int:
 
 def replay(case) -> int:
     kind, args = case["kind"], case["args"]
-    if kind == "wrap":
+    if kind == "reconnect":
+        r = reconnect_case(tuple(args))
+    elif kind == "wrap":
         args = (args[0], tuple(args[1]), args[2])
         r = wrap_case(args)
     else:
